@@ -17,6 +17,7 @@ func checkC02(w *World, r *Report, tier string) propMeta {
 	c02R3(w, r)
 	c02R4(w, r, "C02.R4")
 	n := c02R5(w, r, "C02.R5")
+	c02R6(w, r)
 	return propMeta{
 		explanation: fmt.Sprintf("(R1) verify-before-deliver: in the scan loop a row reaches rowBatcher.add only on the true edge of matchRowBytes for the same scanner.Next row, and the delivered map is materializeRow of that same row; (R2) single producer: only Results.deliver sends on rowChan, only rowBatcher.flush calls deliver, only processDataBlock calls add, only markWorkersDone closes rowChan; (R3) each batch handed off once: flush clears the batch before delivering the old slice, deliver performs at most one successful rowChan send per path and exactly one before `return nil`, and counts the batch once per send; (R4) strict prefilter table: nil ⇒ true, nil condition ⇒ true, empty Or ⇒ false, And = all, Or = any, unknown ⇒ false, missing partition/minmax metadata ⇒ false — by abstract interpretation of evaluatePrefilterExpression on constant trees; (R5) the compiled matcher's constants equal the documented ones and, for every small tree (depth ≤ 2) and every truth assignment of its leaves, the row verdict equals the documented And/Or semantics — %d (tree, assignment) cases.", n),
 		notDecided:  "Multiset equality against an independent oracle; the index arithmetic of BlockRowScanner.Next (bounds are decided under C19); that matchRowBytes itself implements the documented search semantics on real JSON (value-level).",
@@ -82,6 +83,94 @@ func c02R1(w *World, r *Report) {
 			okc = (strings.Contains(bq, "Bloom") || strings.Contains(bq, "phi(")) && strings.HasPrefix(w.path(c.Args[1]), "call:compileRegexQuery@") && w.path(c.Args[3]) == "p:b.config.Tokenizer"
 		}
 		r.check(okc, rule, "Query:matcher-from-query", w.pos(q.Pos()), "row matcher compiled from the query's bloom and regex expressions with the engine's tokenizer", "the row matcher is not compiled from the query's own bloom/regex expressions and the configured tokenizer")
+	}
+}
+
+// c02R6: a row's verdict does not depend on the rows scanned before it: the
+// matcher's per-scan scratch (satisfaction vector, collected regex texts) is
+// reset on every path before the row is walked.
+func c02R6(w *World, r *Report) {
+	const rule = "C02.R6"
+	r.rule(rule, "verdict independent of earlier rows: compiledRowMatcher.match resets scratch.sat and scratch.regexTexts (every element) before walking the row, on every path", 4)
+	fn := fnOrUndecided(w, r, rule, "compiledRowMatcher.match")
+	if fn == nil {
+		return
+	}
+	type target struct{ name, path string }
+	targets := []target{{"sat", "p:scratch.sat"}, {"regexTexts", "p:scratch.regexTexts"}}
+	cl := &Classifier{
+		Cond: func(c Cond, taken bool) *Event {
+			if c.Op != "<" || c.Y == nil {
+				return nil
+			}
+			for _, t := range targets {
+				if isLenOf(w, c.Y, t.path) {
+					if taken {
+						return (&Event{}).kill("stored:" + t.name)
+					}
+					return ev("loopdone:" + t.name)
+				}
+			}
+			return nil
+		},
+		Instr: func(in ssa.Instruction) *Event {
+			st, ok := in.(*ssa.Store)
+			if !ok {
+				return nil
+			}
+			ia, ok := st.Addr.(*ssa.IndexAddr)
+			if !ok {
+				return nil
+			}
+			switch w.path(ia.X) {
+			case "p:scratch.sat":
+				if b, isC := constBool(st.Val); isC && !b {
+					return ev("stored:sat")
+				}
+			case "p:scratch.regexTexts":
+				if sl, ok := st.Val.(*ssa.Slice); ok && sl.Low == nil {
+					if n, ok := constInt(sl.High); ok && n == 0 {
+						return ev("stored:regexTexts")
+					}
+				}
+			}
+			return nil
+		},
+	}
+	fl := newFlow(w, fn, cl)
+	walks := w.callSitesIn(fn, "pathWalker.walk")
+	if len(walks) != 1 {
+		r.undecided(rule, "match:walk", w.pos(fn.Pos()), fmt.Sprintf("expected one walker call, found %d", len(walks)))
+		return
+	}
+	for _, t := range targets {
+		f := fl.Before(walks[0])
+		r.check(f.Must("loopdone:"+t.name), rule, "match:reset-"+t.name+"-before-walk", w.instrPos(walks[0]), "reset loop completed before the row is walked", "scratch."+t.name+" is not reset on every path before the row is walked: a verdict (or collected regex text) of an earlier row can leak into this row's verdict")
+		// the loop body resets each element
+		okBody, n := true, 0
+		for _, be := range backEdges(fn) {
+			b := fn.Blocks[be[0]]
+			hdr := b.Succs[be[1]]
+			// is this the reset loop of t? its header compares against len(t.path)
+			isLoop := false
+			if ifi, ok := hdr.Instrs[len(hdr.Instrs)-1].(*ssa.If); ok {
+				if cmp, ok := ifi.Cond.(*ssa.BinOp); ok && isLenOf(w, cmp.Y, t.path) {
+					isLoop = true
+				}
+			}
+			if !isLoop {
+				continue
+			}
+			// only the loops before the walk are reset loops
+			if !hdr.Dominates(walks[0].Block()) {
+				continue
+			}
+			n++
+			if ef := fl.EdgeFacts(b, be[1]); ef == nil || !ef.Must("stored:"+t.name) {
+				okBody = false
+			}
+		}
+		r.check(n >= 1 && okBody, rule, "match:reset-"+t.name+"-every-element", w.pos(fn.Pos()), "each element cleared in the reset loop", "the reset loop over scratch."+t.name+" does not clear every element")
 	}
 }
 
